@@ -1,12 +1,17 @@
 ---------------------------- MODULE Trace_StrCache ----------------------------
-(* Trace validation for C18: the ndjson log recorded from the real SimpleStringInternalCache over a
-   recording underlying allocator must be a behaviour of StrCache.  Bound per call:
+(* Trace validation for C18: the ndjson log recorded from the real SimpleStringInternalCache (bare), or from the
+   real GlobalSimpleStringCache / SimpleStringCacheAllocator / SimpleString (global), over a recording underlying
+   allocator must be a behaviour of StrCache.  Events: new / gnew (Construct), del / gdel (Destroy), alloc / dealloc
+   (bare: the cache's own calls; global: alloc_memory / free_memory of the installed adaptor), snew / sdel (global: a
+   SimpleString is created / destroyed = Alloc / Dealloc of its buffer), foreign, clearcache, clearall.  Bound per call:
      mem    - number of the underlying allocation the returned pointer lies in (0 = none)
      room   - bytes from the returned pointer to the end of that allocation
      got    - numbers of the underlying allocations obtained during the call (in order)
      ret    - numbers of the underlying allocations returned during the call (0 = not a live allocation)
      warn   - the call printed something (the one-time warning)
-     hasfree- hasFreeBlocksOfSize(bound) for every class bound, ascending
+     hasfree- hasFreeBlocksOfSize(bound) for every class bound, ascending (bare cache alive; otherwise empty)
+     cur    - the string allocator of SimpleString after the call: "under" = the allocator that was installed before
+              the cache was constructed, "cache" = the adaptor of the live global cache, "other" = anything else
      intact - every buffer still handed out holds the bytes its owner wrote (no aliasing seen)
    Which idle block is reused is the implementation's choice: the spec only demands an idle block of
    the request's class or a newly obtained one. *)
@@ -26,40 +31,45 @@ TAlloc == IF E.got = <<>>
                /\ \E i \in 1..Len(free[ClassOf(E.n)]) : free[ClassOf(E.n)][i].mem = E.mem /\ AllocReuse(E.n, i)
           ELSE AllocNew(E.n, E.mem, SetOf(E.got) \ {E.mem}, E.room)
 
-ObsOK(lst, fr) ==
-         /\ lst.mem = E.mem /\ lst.warn = E.warn
+ObsOK(lst, fr, lf, sa) ==
+         /\ lst.mem = E.mem /\ lst.warn = E.warn /\ E.cur = sa
          /\ lst.got = SetOf(E.got) /\ NoDup(E.got)
          /\ lst.ret = SetOf(E.ret) /\ NoDup(E.ret)
          /\ E.intact
-         /\ Len(E.hasfree) = Len(Bounds)
-         /\ \A k \in 1..Len(Bounds) : E.hasfree[k] = (fr[Bounds[k]] # <<>>)
-         /\ (E.op = "alloc" => E.room >= E.n)
+         /\ Len(E.hasfree) = (IF lf = "bare" THEN Len(Bounds) ELSE 0)
+         /\ \A k \in 1..Len(E.hasfree) : E.hasfree[k] = (fr[Bounds[k]] # <<>>)
+         /\ (E.op \in {"alloc", "snew"} => E.room >= E.n)
 
 TInit == Init /\ l = 1
-TNext == /\ \/ Is("alloc") /\ TAlloc
-            \/ Is("dealloc") /\ Dealloc(E.mem, E.n)
-            \/ Is("foreign") /\ DeallocUnknown
-            \/ Is("clearcache") /\ ClearCache
-            \/ Is("clearall") /\ ClearAll
-         /\ ObsOK(last', free')
+TCalls == \/ Is("new") /\ Construct("bare", SetOf(E.got))
+          \/ Is("gnew") /\ Construct("global", SetOf(E.got))
+          \/ Is("del") /\ life = "bare" /\ Destroy
+          \/ Is("gdel") /\ life = "global" /\ Destroy
+          \/ Is("alloc") /\ TAlloc
+          \/ Is("dealloc") /\ Dealloc(E.mem, E.n)
+          \/ Is("snew") /\ life = "global" /\ E.n > 0 /\ TAlloc
+          \/ Is("sdel") /\ life = "global" /\ E.mem \in DOMAIN req /\ E.n = req[E.mem] /\ Dealloc(E.mem, E.n)
+          \/ Is("foreign") /\ DeallocUnknown
+          \/ Is("clearcache") /\ life = "bare" /\ ClearCache
+          \/ Is("clearall") /\ life = "bare" /\ ClearAll
+TNext == TCalls /\ ObsOK(last', free', life', salloc')
 \* executions are concatenated with reset lines (fresh cache, fresh underlying allocator)
 TReset == /\ Is("reset") /\ free' = [c \in ClassMax |-> <<>>] /\ used' = [c \in ClassMax |-> <<>>] /\ uncached' = <<>>
           /\ warned' = FALSE /\ under' = {} /\ nid' = 1 /\ req' = <<>> /\ last' = Outcome("init", 0, FALSE, {}, {})
+          /\ life' = "none" /\ salloc' = "under" /\ base' = {}
 TSpec == TInit /\ [][TNext \/ TReset]_tvars
 Accepted == TLCGet("stats").diameter - 1 = Len(Tr)
 TInv == /\ NoAlias /\ HandedOutExact /\ BigEnough /\ ClassStable /\ UnderExact
         /\ AllBackAfterClearAll /\ IdleBackAfterClearCache /\ WarnImpliesWarned
+        /\ AllBackAfterDestroy /\ InstalledIffGlobal
 
 \* diagnostics: the same walk without binding the observations; prints the state the spec is in
-PNext == \/ Is("alloc") /\ TAlloc
-         \/ Is("dealloc") /\ Dealloc(E.mem, E.n)
-         \/ Is("foreign") /\ DeallocUnknown
-         \/ Is("clearcache") /\ ClearCache
-         \/ Is("clearall") /\ ClearAll
+PNext == TCalls
 PSpec == TInit /\ [][PNext \/ TReset]_tvars
 Mems(s) == [i \in 1..Len(s) |-> s[i].mem]
 Predict == (l > 1 /\ l - 1 >= atoi(IOEnv.FROM_LINE_N)) =>
               PrintT(<<"BEH", ToJson([line |-> l - 1, free |-> [k \in 1..Len(Bounds) |-> Mems(free[Bounds[k]])],
                                       used |-> [k \in 1..Len(Bounds) |-> Mems(used[Bounds[k]])], uncached |-> Mems(uncached),
-                                      warned |-> warned, under |-> under, last |-> last])>>)
+                                      warned |-> warned, under |-> under, last |-> last,
+                                      life |-> life, salloc |-> salloc])>>)
 =============================================================================
